@@ -109,7 +109,16 @@ func main() {
 	h := verifx.New()
 	c06 := h.Mode == "c06"
 	h.Cases(func(ci int, r *verifx.Rng) {
-		runCase(h, ci, r, c06)
+		switch {
+		case !c06 && ci%8 == 3:
+			agentCase(h, ci, r) // the real Shard.sampleBucket
+		case !c06 && ci%16 == 5:
+			sizeCase(h, ci, r) // the real size estimates fed to sampler.Add
+		case c06 && ci%6 == 2:
+			hostCase(h, ci, r) // the real Aggregator.calcHostMetricBudgets
+		default:
+			runCase(h, ci, r, c06)
+		}
 	})
 	h.Done()
 }
